@@ -47,6 +47,7 @@ func (d *cacheDriver) emit(ev *cacheEv) {
 }
 
 type cacheDriver struct {
+	forms int
 	w     *traceWriter
 	in    *interner
 	c     *corpusT
@@ -114,7 +115,16 @@ func (d *cacheDriver) search(q string, o database.SearchOptions, mon bool) {
 		if mon {
 			res = d.mdb.SearchWithOptionsAndMonitoring(q, o)
 		} else {
-			res = d.mdb.SearchWithOptionsAndCache(q, o)
+			// three names for the same request (the wrappers' fuzzy and pipeline forms take the options as given)
+			d.forms++
+			switch d.forms % 3 {
+			case 0:
+				res = d.mdb.SearchWithOptionsAndCache(q, o)
+			case 1:
+				res = d.mdb.SearchWithFuzzyAndCache(q, o)
+			default:
+				res = d.mdb.SearchWithPipelineOptionsAndCache(q, o)
+			}
 		}
 		ev.Hit = d.hits() > h0
 		ev.NRes = len(res)
